@@ -117,7 +117,7 @@ def run_fonts(report, n, rng):
             shapes, exp, grads = [], [], []
             for j in range(rng.randint(1, 3)):
                 x, y, w, h = 5 + 22 * j, 10 + 13 * k + 7 * j, 12 + 3 * j + k, 9 + 2 * k + 5 * j  # distinct outlines: no reuse
-                op = rng.choice([1.0, 1.0, 0.5, 0.25])
+                op = rng.choice([1.0, 1.0, 0.5, 0.25, 0.9, 0.1])  # 0.5, 0.9, 0.1: alpha x 255 ends in .5 (rounded, not cut)
                 r = rng.random()
                 if not fmt.endswith("_0") and r < 0.25:
                     # a linear gradient whose stops declare palette indices (opaque, so one member per stop)
@@ -129,14 +129,19 @@ def run_fonts(report, n, rng):
                                 by_index[nidx] = (rng.choice(list(RGB)), 1.0)
                             c = by_index[nidx][0]
                             stops.append((f"var(--color{nidx}, {c})", RGB[c], nidx))
-                        else:
+                        elif rng.random() < 0.5:
                             c = rng.choice(list(RGB))
                             stops.append((c, RGB[c], None))
+                        else:
+                            # the stop's own colour carries an alpha (#RRGGBBAA)
+                            c = rng.choice(list(RGB))
+                            aa = rng.choice([0x80, 0x40, 0x10])
+                            stops.append(("#%02x%02x%02x%02x" % (RGB[c] + (aa,)), RGB[c], None, aa / 255))
                     gid = f"g{k}_{j}"
                     grads.append(f'<linearGradient id="{gid}" gradientUnits="userSpaceOnUse" x1="{x}" y1="{y}" x2="{x + w}" y2="{y + h}">'
                                  + "".join(f'<stop offset="{so}" stop-color="{st[0]}"/>' for so, st in enumerate(stops)) + "</linearGradient>")
                     shapes.append(f'<path d="M{x},{y} L{x + w},{y} L{x + w},{y + h} L{x},{y + h} Z" fill="url(#{gid})"/>')
-                    exp.append(("gradient", [(st[1], 1.0, st[2]) for st in stops], None))
+                    exp.append(("gradient", [(st[1], st[3] if len(st) > 3 else 1.0, st[2]) for st in stops], None))
                     continue
                 if r < 0.1:
                     fill, rgb, idx = "currentColor", "current", None
@@ -194,7 +199,10 @@ def run_fonts(report, n, rng):
         probs = []
         if font["COLR"].version != (0 if v0 else 1):
             probs.append(f"{fmt} built a COLR version {font['COLR'].version} table")
-        if len(got) != len(want) or any(g[0] != w[0] or abs(g[1] - w[1] * 255) > 1.0 for g, w in zip(got, want)):
+        import math
+
+        # the alpha byte is the alpha times 255 rounded (half up), not cut
+        if len(got) != len(want) or any(g[0] != w[0] or g[1] != math.floor(w[1] * 255 + 0.5) for g, w in zip(got, want)):
             probs.append(f"CPAL {got} != specified palette {[(w[0], round(w[1] * 255)) for w in want]}")
         for (fn, text, cps), exp in zip(srcs, expect):
             g = e2e.glyph_for(font, cps)
